@@ -10,6 +10,7 @@
   delete, function entry on the real data structures, and the simulation of the evaluators (`fn_refines`).
 -/
 import OttoVerif.C01.FnRefine
+import OttoVerif.C01.FnRefineLW
 namespace OttoVerif.C01.FnThm
 open OttoVerif.C01 OttoVerif.C01.FnRefine
 
@@ -147,6 +148,22 @@ theorem expr_refines_partial (sc : FnM.Scope) (rest : List FnM.Scope) (xs : List
     (hro : ro e = true) (hid : ∀ x ∈ idents e, x ∈ xs) (σ : FnM.St) (hI : ROInv σ xs) (hsc : σ.scopes = sc :: rest) :
     ROSim n e sc σ :=
   FnRefine.expr_refines_partial sc rest xs n e hro hid σ hI hsc
+
+/-- **expr_refines_assign** — the evaluator simulation for the read-only fragment plus assignments `x = e` to local
+    bindings (see FnRefineLW): same value or same error, and the two final states correspond again (`absSt`) and have
+    the SHAPE of the initial state (same heap and scopes, same stashes up to the values bound in declarative stashes),
+    from which `LWInv` follows again (`LWInv.shape`) – unless otto runs out of fuel.  The reference of the left-hand
+    side is made before the right-hand side runs on both sides; it stays valid because the right-hand side cannot
+    change the shape.  Open: assignments that reach an object record or create a global, property access, allocation
+    (needs the address-renaming relation), calls, statements. -/
+theorem expr_refines_assign (sc : FnM.Scope) (rest : List FnM.Scope) (xs ys : List String) (n : Nat) (e : Fn.FE)
+    (hlw : lw e = true) (hrd : ∀ x ∈ reads e, x ∈ xs) (hwr : ∀ y ∈ writes e, y ∈ ys) (σ : FnM.St)
+    (hI : LWInv σ sc rest xs ys) : LWSim n e sc σ :=
+  FnRefine.expr_refines_assign sc rest xs ys n e hlw hrd hwr σ hI
+
+/-- the invariant is re-established by every step of the simulation -/
+theorem lwInv_preserved (σ σ' : FnM.St) (sc : FnM.Scope) (rest : List FnM.Scope) (xs ys : List String)
+    (hI : LWInv σ sc rest xs ys) (h : Shape σ σ') : LWInv σ' sc rest xs ys := hI.shape h
 
 /-! ## the conditions are satisfiable: decidable checkers, and a concrete state -/
 
@@ -353,5 +370,31 @@ example : ROSim 7 (.cond (.lt (.var "x") (.var "y")) (.log (.var "y")) (.var "no
   expr_refines_partial _ [] _ 7 _ rfl (by decide) σ1s roInv_σ1s rfl
 example : (match evalV 7 (.cond (.lt (.var "x") (.var "y")) (.log (.var "y")) (.var "nowhere")) σ1s with
     | .ok v s => (v, s.trace) | _ => (.undef, [])) = (.num 2, ["n2"]) := by decide
+
+/-- `y` and `me` are bindings of the function stash 2 -/
+theorem lwInv_σ1s : LWInv σ1s { lexical := 2, variable_ := 2, this := FnM.gObj } [] ["x", "y", "nowhere", "me"] ["y", "me"] :=
+  ⟨⟨fun x hx => by
+      simp only [List.mem_cons, List.mem_nil_iff, or_false] at hx
+      rcases hx with rfl | rfl | rfl | rfl <;> exact visible_of_check σ1s _ (by decide),
+    rfl, (noArgs_checks σ1s (by decide)).1, (noArgs_checks σ1s (by decide)).2, errWF_of_check σ1s (by decide),
+    (stash_checks σ1s (by decide)).1, clsWF_of_check σ1s (by decide)⟩, rfl, (stash_checks σ1s (by decide)).2, fun y hy => by
+    simp only [List.mem_cons, List.mem_nil_iff, or_false] at hy
+    rcases hy with rfl | rfl
+    · exact ⟨2, _, by decide, by decide, rfl⟩
+    · exact ⟨2, _, by decide, by decide, rfl⟩⟩
+
+/-- `log(y = y + x) < (y = y + y)`: two assignments to the local `y`, the second sees the first -/
+example : LWSim 8 (.lt (.log (.assign "y" (.add (.var "y") (.var "x")))) (.assign "y" (.add (.var "y") (.var "y"))))
+    { lexical := 2, variable_ := 2, this := FnM.gObj } σ1s :=
+  expr_refines_assign _ [] _ _ 8 _ rfl (by decide) (by decide) σ1s lwInv_σ1s
+example : (match evalV 8 (.lt (.log (.assign "y" (.add (.var "y") (.var "x")))) (.assign "y" (.add (.var "y") (.var "y")))) σ1s with
+    | .ok v s => (v, s.trace, (FnM.dclProps s 2).map fun kp => (kp.1, kp.2.value)) | _ => (.undef, [], [])) =
+    (.bool true, ["n3"], [("y", .num 6), ("me", .ref 3)]) := by decide
+/-- `me = 5` on the immutable binding of a named function expression: the value is 5, the binding keeps the function -/
+example : (match evalV 8 (.add (.assign "me" (.lit (.num 5))) (.typeof (.var "me"))) σ1s with
+    | .ok v s => (v, (FnM.dclProps s 2).map fun kp => (kp.1, kp.2.value)) | _ => (.undef, [])) =
+    (.str "5function", [("y", .num 2), ("me", .ref 3)]) := by decide
+example : LWSim 8 (.add (.assign "me" (.lit (.num 5))) (.typeof (.var "me"))) { lexical := 2, variable_ := 2, this := FnM.gObj } σ1s :=
+  expr_refines_assign _ [] _ _ 8 _ rfl (by decide) (by decide) σ1s lwInv_σ1s
 
 end OttoVerif.C01.FnThm
